@@ -380,6 +380,9 @@ pub fn run(ctx: &Ctx) -> Report {
         }
     });
     out.merge(rep12);
+    // (A clause 'sleep on a panel that is busy after power-off and ignores commands while busy' was tried and
+    // dropped: the unchanged 2in13_v2 and 5in65f drivers send the deep-sleep command right behind a busy-raising
+    // command exactly as the vendor sequences do, so the command-dropping panel is too hostile a model here.)
     // ---- sleep after a call that was cut short by an SPI error ---------------------------------
     // ("the sleep call ends with the controller in its deep-sleep state" also when the previous call
     // returned an error - putting the panel to sleep is what a caller does then)
